@@ -23,8 +23,9 @@ Edges == 0..11
 Corners == 0..7
 
 CP(c) == CornerPos[c + 1]
-EA(e) == CornerA[e + 1]
-EB(e) == CornerB[e + 1]
+\* total even on malformed edge tables (MarchTable reports those as C09.EdgeTables)
+EA(e) == IF e + 1 \in DOMAIN CornerA /\ CornerA[e + 1] \in Corners THEN CornerA[e + 1] ELSE 0
+EB(e) == IF e + 1 \in DOMAIN CornerB /\ CornerB[e + 1] \in Corners THEN CornerB[e + 1] ELSE 0
 Pow2(n) == IF n = 0 THEN 1 ELSE IF n = 1 THEN 2 ELSE IF n = 2 THEN 4 ELSE IF n = 3 THEN 8
            ELSE IF n = 4 THEN 16 ELSE IF n = 5 THEN 32 ELSE IF n = 6 THEN 64 ELSE 128
 \* bit c of the case index = corner c is below the threshold (canvas.go builds lookupIndex so)
